@@ -3,9 +3,16 @@
   property makes; helper lemmas live in Proofs/C11*.lean.
 
   `cfg` is built from Generated/C11.lean, which the translator rewrites from /repo's source on
-  every run. `cfg_good` is the proof obligation that breaks when a table entry, a constant, a
-  tuple-unpack index, the UNIX path expression or the inode-merge statement changes.
-  The host's endianness is *not* part of `Cfg.Good`: every theorem below holds for both.
+  every run. Proof obligations on the generated facts:
+  * `cfg_good` — constants, `TCP_STATUSES`, tuple-unpack indices, the UNIX path expression, the inode-merge
+    statements, the exception classes / errno names of the `except` clauses of get_proc_inodes / get_all_inodes, the
+    two `_Ipv6UnsupportedError` try blocks, and the second argument of each of the four `inet_ntop` calls of
+    decode_address (BOTH endianness branches: reversed / swapped on little-endian only);
+  * `cfg_tmap_good`, `C11_kind_*` — both kind tables;
+  * `cfg_shapes_good` — the statement lists of every transcribed function (decode_address, get_proc_inodes,
+    get_all_inodes, process_inet, process_unix, retrieve, the `readlink` wrapper, `_check_conn_kind` and its call sites).
+  The host's endianness is *not* part of `Cfg.Good`: every theorem below holds for both, and the differential run
+  executes both (the big-endian branches with `_pslinux.LITTLE_ENDIAN` patched to False).
 -/
 import PsutilModel.Proofs.C11Rows
 import PsutilModel.Proofs.C11Scan
@@ -19,6 +26,14 @@ open Spec
 
 theorem cfg_good : cfg.Good := by constructor <;> decide
 
+/-- **cfg_shapes_good.** The statement lists of the transcribed functions, as re-extracted from the source on this
+    run, are the ones `Model/C11.lean` was transcribed from (`Model/C11Gen.lean`, `shapesExpected`). The model does
+    not read them: this is the theorem-level tie for everything the finer facts of `cfg_good` do not parametrise
+    (`addr.split(':')`, `int(port, 16)`, `if not port`, `startswith('socket:[')`, `inode[8:][:-1]`, `int(fd)`,
+    `inodes[inode][0]`, both `filter_pid` tests, `type_ == SOCK_STREAM`, `' ' not in line`, `set()`, `if pid:`, the early
+    `return []`, `_check_conn_kind` and its two call sites, the `readlink` wrapper, the default `kind='inet'`). -/
+theorem cfg_shapes_good : shapesNow = shapesExpected := by decide
+
 /-- the extracted configuration on a host of either endianness -/
 def cfgLE (le : Bool) : Cfg := { cfg with littleEndian := le }
 
@@ -26,7 +41,8 @@ theorem cfgLE_good (le : Bool) : (cfgLE le).Good := by
   have g := cfg_good
   exact ⟨g.afInet, g.afInet6, g.afUnix, g.sockStream, g.connNone, g.statuses, g.inodesExtend,
     g.unixPathRest, g.inetN, g.iLaddr, g.iRaddr, g.iStatus, g.iInode, g.unixN, g.uType, g.uInode, g.ntop6,
-    g.linkSkip, g.linkSkipNamed, g.allSkip, g.allSkipNamed, g.v6RaiseUnsupported, g.v6SkipLine⟩
+    g.linkSkip, g.linkSkipNamed, g.allSkip, g.allSkipNamed, g.v6RaiseUnsupported, g.v6SkipLine,
+    g.v4RevLE, g.v4RevBE, g.v6SwapLE, g.v6SwapBE, g.ntopKnown⟩
 
 /-! ## Addresses -/
 
@@ -59,6 +75,43 @@ theorem C11_port_zero_empty (le : Bool) (ip : List Nat) (family : Nat) :
   unfold decodeAddress
   rw [splitOn_endpoint]
   simp [parseHex_hexW4 0 (by decide)]
+
+/-! ### pinned vectors: the byte-order convention of the kernel-side renderer
+
+  `decode_address`'s docstring documents two lines of a little-endian kernel: `"0500000A:0016"` is 10.0.0.5 port 22 and
+  `"0000000000000000FFFF00000100007F:9E49"` is ::ffff:127.0.0.1 port 40521. The renderer of Spec/C11.lean produces exactly
+  these texts for these sockets (and the byte-wise text on a big-endian host); the harness additionally compares the
+  renderer with the running kernel's line for a socket it has just bound (`live_socket_check`). -/
+
+def v6Mapped : List Nat := [0, 0, 0, 0, 0, 0, 0, 0, 0, 0, 255, 255, 127, 0, 0, 1]
+
+example : renderEndpoint true [10, 0, 0, 5] 22 = lit "0500000A:0016" := by decide
+example : renderEndpoint true v6Mapped 40521 = lit "0000000000000000FFFF00000100007F:9E49" := by decide
+example : renderEndpoint false [10, 0, 0, 5] 22 = lit "0A000005:0016" := by decide
+example : renderEndpoint false v6Mapped 40521 = lit "00000000000000000000FFFF7F000001:9E49" := by decide
+example : renderEndpoint true [127, 0, 0, 1] 0 = lit "0100007F:0000" := by decide
+
+/-- **C11_docstring_vectors.** The two documented examples, as literal text: on a little-endian host
+    `decode_address("0500000A:0016", AF_INET)` hands `10.0.0.5`, port 22 to `inet_ntop`, and
+    `decode_address("0000000000000000FFFF00000100007F:9E49", AF_INET6)` hands `::ffff:127.0.0.1`, port 40521. -/
+theorem C11_docstring_vectors :
+    decodeAddress (cfgLE true) (lit "0500000A:0016") cfg.afInet = .ok (.ip [10, 0, 0, 5] 22)
+    ∧ decodeAddress (cfgLE true) (lit "0000000000000000FFFF00000100007F:9E49") cfg.afInet6 = .ok (.ip v6Mapped 40521) := by
+  have e1 : lit "0500000A:0016" = renderEndpoint true [10, 0, 0, 5] 22 := by decide
+  have e2 : lit "0000000000000000FFFF00000100007F:9E49" = renderEndpoint true v6Mapped 40521 := by decide
+  rw [e1, e2]
+  exact ⟨C11_addr_roundtrip_v4 true 10 0 0 5 22 (by decide) (by decide) (by decide) (by decide) (by decide) (by decide),
+    C11_addr_roundtrip_v6 true v6Mapped 40521 (by decide) (by decide) (by decide) (by decide)⟩
+
+/-- the same two sockets as a big-endian kernel prints them (address words in network order) -/
+theorem C11_docstring_vectors_big_endian :
+    decodeAddress (cfgLE false) (lit "0A000005:0016") cfg.afInet = .ok (.ip [10, 0, 0, 5] 22)
+    ∧ decodeAddress (cfgLE false) (lit "00000000000000000000FFFF7F000001:9E49") cfg.afInet6 = .ok (.ip v6Mapped 40521) := by
+  have e1 : lit "0A000005:0016" = renderEndpoint false [10, 0, 0, 5] 22 := by decide
+  have e2 : lit "00000000000000000000FFFF7F000001:9E49" = renderEndpoint false v6Mapped 40521 := by decide
+  rw [e1, e2]
+  exact ⟨C11_addr_roundtrip_v4 false 10 0 0 5 22 (by decide) (by decide) (by decide) (by decide) (by decide) (by decide),
+    C11_addr_roundtrip_v6 false v6Mapped 40521 (by decide) (by decide) (by decide) (by decide)⟩
 
 /-! ## Status -/
 
@@ -179,6 +232,13 @@ theorem C11_unknown_kind_ValueError (le : Bool) (fs : ProcFs) (kind : String) (p
     (h : kind ∉ kinds) : netConnections (cfgLE le) fs kind pid = .error .valueError := by
   have : kind ∉ (cfgLE le).connKinds := fun hm => h ((C11_kind_keys kind).1.mp hm)
   simp [netConnections, this]
+
+/-- **C11_unknown_kind_ValueError_E.** The same for the errno-explicit functions the driver runs: whatever the file
+    system does (failing listings, EIO …), an unknown kind is a ValueError — nothing has been read yet. -/
+theorem C11_unknown_kind_ValueError_E (le : Bool) (fs : ProcFsE) (kind : String) (pid : Option Nat)
+    (h : kind ∉ kinds) : netConnectionsE (cfgLE le) fs kind pid = .error .valueError := by
+  have : kind ∉ (cfgLE le).connKinds := fun hm => h ((C11_kind_keys kind).1.mp hm)
+  simp [netConnectionsE, this]
 
 /-- …and each of the 11 kinds passes the check and reaches its `tmap` entry -/
 theorem C11_known_kind_accepted (le : Bool) (fs : ProcFs) (kind : String) (pid : Option Nat)
@@ -571,6 +631,157 @@ theorem C11_rows_count_inode0 (le : Bool) :
   rw [h2]
   decide
 
+/-- the count statement WITHOUT `Distinct`: one row per requested socket (× holders for UNIX), always -/
+def RowsCountFull (c : Cfg) : Prop :=
+  ∀ (le : Bool) (w : World), w.WF → ∀ kind ∈ kinds,
+    ∃ rows, netConnections c (renderWorld le w) kind none = .ok rows
+      ∧ rows.length = ((expects w ⟨kind, none⟩).map Expect.count).sum
+
+/-- an unbound UNIX stream socket nobody visible holds (the normal sight for an unprivileged caller) -/
+def sockTwin (inode : Nat) : Sock :=
+  { fam := .unix, typ := 1, lip := [], lport := 0, rip := [], rport := 0, state := 1, path := none,
+    inode := inode, txq := 0, rxq := 0, uid := 0, refcnt := 2, flags := 0 }
+
+/-- two of them: different sockets (inodes 501, 502), indistinguishable rows -/
+def worldTwins : World := { socks := [sockTwin 501, sockTwin 502], procs := [], v6 := true }
+
+theorem worldTwins_wf : worldTwins.WF := by
+  refine ⟨?_, (by intro p hp; cases hp), (by intro h; cases h)⟩
+  intro s hs
+  simp only [worldTwins, List.mem_cons, List.not_mem_nil, or_false] at hs
+  rcases hs with rfl | rfl <;> simp [Sock.WF, sockTwin]
+
+/-- **C11_rows_count_twins.** What the code does with indistinguishable sockets: `retrieve` collects the rows in a
+    `set`, the rows are plain value tuples, so the two ownerless unbound UNIX sockets give ONE row where two sockets
+    were requested. `Accepts` (value-level: covered + no duplicates + at most one row per socket) allows that. -/
+theorem C11_rows_count_twins (le : Bool) :
+    ∃ rows, netConnections (cfgLE le) (renderWorld le worldTwins) "unix" none = .ok rows ∧ rows.length = 1
+      ∧ ((expects worldTwins ⟨"unix", none⟩).map Expect.count).sum = 2 := by
+  obtain ⟨rows, h1, h2⟩ := C11_rows_exact le worldTwins worldTwins_wf "unix" (by decide)
+  refine ⟨rows, h1, ?_, by decide⟩
+  have hE : expects worldTwins ⟨"unix", none⟩ = [⟨baseRow (sockTwin 501), [(none, -1)], true⟩, ⟨baseRow (sockTwin 501), [(none, -1)], true⟩] := by
+    decide
+  have hall : ∀ r ∈ rows, r = rowOf (sockTwin 501) (none, -1) := by
+    intro r hr
+    obtain ⟨e, he, o, ho, rfl⟩ := h2.justified r hr
+    rw [hE] at he
+    simp only [List.mem_cons, List.not_mem_nil, or_false, or_self] at he
+    subst he
+    simp only [List.mem_cons, List.not_mem_nil, or_false] at ho
+    subst ho
+    rfl
+  have hin : rowOf (sockTwin 501) (none, -1) ∈ rows := by
+    have := h2.covered ⟨baseRow (sockTwin 501), [(none, -1)], true⟩ (by rw [hE]; simp)
+    simp only [if_true] at this
+    exact this (none, -1) (by simp)
+  match rows, h2.nodup, hall, hin with
+  | [], _, _, hin => cases hin
+  | [_], _, _, _ => rfl
+  | a :: b :: _, hnd, hall, _ =>
+    have ha := hall a (by simp)
+    have hb := hall b (by simp)
+    rw [List.nodup_cons] at hnd
+    exact absurd (by rw [ha, hb]; simp) hnd.1
+
+/-- **C11_rows_count_Full_false.** …so the unrestricted count statement is false ("every socket once" holds for
+    distinguishable sockets — `C11_rows_count` — not for twins). Replayed on the real code (corpus world 6). -/
+theorem C11_rows_count_Full_false (le : Bool) : ¬ RowsCountFull (cfgLE le) := by
+  intro h
+  obtain ⟨rows, h1, h2⟩ := h le worldTwins worldTwins_wf "unix" (by decide)
+  obtain ⟨rows', h1', h2', h3'⟩ := C11_rows_count_twins le
+  rw [h1] at h1'
+  have := Except.ok.inj h1'
+  subst this
+  omega
+
+/-- `Distinct` is exactly what fails there -/
+example : ¬ Distinct (expects worldTwins ⟨"unix", none⟩) := by
+  intro h
+  have hE : expects worldTwins ⟨"unix", none⟩ = [⟨baseRow (sockTwin 501), [(none, -1)], true⟩, ⟨baseRow (sockTwin 501), [(none, -1)], true⟩] := by
+    decide
+  rw [hE] at h
+  exact (List.pairwise_cons.mp h.1).1 _ (by simp) (none, -1) (by simp) (none, -1) (by simp) rfl
+
+/-! ## The executable acceptance test of the driver is the relation of the specification -/
+
+/-- **C11_accepts_iff.** `Spec.accepts` (what the driver evaluates on the model's rows) decides `Spec.Accepts`. -/
+theorem C11_accepts_iff (es : List Expect) (rows : List Row) : accepts es rows = true ↔ Accepts es rows := by
+  simp only [accepts, Bool.and_eq_true, List.all_eq_true, List.any_eq_true, decide_eq_true_eq, beq_iff_eq]
+  constructor
+  · rintro ⟨⟨⟨h1, h2⟩, h3⟩, h4⟩
+    refine ⟨fun r hr => ?_, fun e he => ?_, h3, h4⟩
+    · obtain ⟨e, he, o, ho, hro⟩ := h1 r hr
+      exact ⟨e, he, o, ho, hro⟩
+    · have := h2 e he
+      cases hall : e.all with
+      | true =>
+        simp only [hall, if_true, List.all_eq_true, List.contains_iff_mem] at this ⊢
+        exact this
+      | false =>
+        simp only [hall, Bool.false_eq_true, if_false, List.any_eq_true, List.contains_iff_mem] at this ⊢
+        exact this
+  · intro h
+    refine ⟨⟨⟨fun r hr => ?_, fun e he => ?_⟩, h.nodup⟩, h.bound⟩
+    · obtain ⟨e, he, o, ho, hro⟩ := h.justified r hr
+      exact ⟨e, he, o, ho, hro⟩
+    · have := h.covered e he
+      cases hall : e.all with
+      | true =>
+        simp only [hall, if_true, List.all_eq_true, List.contains_iff_mem] at this ⊢
+        exact this
+      | false =>
+        simp only [hall, Bool.false_eq_true, if_false, List.any_eq_true, List.contains_iff_mem] at this ⊢
+        exact this
+
+/-- **C11_wf_iff.** The driver's gate `World.wf` decides `World.WF`: outside it the driver answers `unspecified`. -/
+theorem C11_sock_wf_iff (s : Sock) : s.wf = true ↔ s.WF := by
+  unfold Sock.wf Sock.WF
+  cases hf : s.fam with
+  | unix =>
+    cases hp : s.path with
+    | none => simp
+    | some p => simp
+  | inet4 =>
+    simp [List.all_eq_true]
+    exact ⟨fun ⟨⟨⟨⟨⟨⟨⟨a, b⟩, c⟩, d⟩, e⟩, f⟩, g⟩, h⟩ => ⟨a, b, c, d, e, f, g, fun ht => h.resolve_left (fun hn => hn ht)⟩,
+      fun ⟨a, b, c, d, e, f, g, h⟩ => ⟨⟨⟨⟨⟨⟨⟨a, b⟩, c⟩, d⟩, e⟩, f⟩, g⟩,
+        if ht : s.typ = 1 then Or.inr (h ht) else Or.inl ht⟩⟩
+  | inet6 =>
+    simp [List.all_eq_true]
+    exact ⟨fun ⟨⟨⟨⟨⟨⟨⟨a, b⟩, c⟩, d⟩, e⟩, f⟩, g⟩, h⟩ => ⟨a, b, c, d, e, f, g, fun ht => h.resolve_left (fun hn => hn ht)⟩,
+      fun ⟨a, b, c, d, e, f, g, h⟩ => ⟨⟨⟨⟨⟨⟨⟨a, b⟩, c⟩, d⟩, e⟩, f⟩, g⟩,
+        if ht : s.typ = 1 then Or.inr (h ht) else Or.inl ht⟩⟩
+
+theorem C11_wf_iff (w : World) : w.wf = true ↔ w.WF := by
+  simp only [World.wf, Bool.and_eq_true, List.all_eq_true, Bool.or_eq_true]
+  constructor
+  · rintro ⟨⟨h1, h2⟩, h3⟩
+    refine ⟨fun s hs => (C11_sock_wf_iff s).mp (h1 s hs), fun p hp fds hfd e he => ?_, fun hv s hs => ?_⟩
+    · have := h2 p hp
+      rw [hfd] at this
+      have := List.all_eq_true.mp this e he
+      cases ht : e.2 with
+      | other t => rw [ht] at this; simpa [Target.wf, Target.WF] using this
+      | sock i => trivial
+      | gone => trivial
+    · rcases h3 with h3 | h3
+      · rw [hv] at h3; cases h3
+      · simpa using h3 s hs
+  · intro h
+    refine ⟨⟨fun s hs => (C11_sock_wf_iff s).mpr (h.socks s hs), fun p hp => ?_⟩, ?_⟩
+    · cases hfd : p.2 with
+      | none => rfl
+      | some fds =>
+        refine List.all_eq_true.mpr fun e he => ?_
+        have := h.targets p hp fds hfd e he
+        cases ht : e.2 with
+        | other t => rw [ht] at this; simpa [Target.wf, Target.WF] using this
+        | sock i => rfl
+        | gone => rfl
+    · cases hv : w.v6 with
+      | true => exact Or.inl rfl
+      | false => exact Or.inr fun s hs => by simpa using h.v6 hv s hs
+
 /-! ## Carriage returns in UNIX names -/
 
 /-- **C11_unix_name_with_cr.** `open_text()` reads with `newline="\n"`: a `\r` is an ordinary
@@ -780,6 +991,16 @@ theorem C11_noipv6_left_out_process (le : Bool) (w : World) (hw : w.WF) (hn : (w
     | inet6 =>
       simp only [needsV6Text, hfam, beq_self_eq_true, Bool.true_and, Bool.or_eq_false_iff, bne_eq_false_iff_eq] at hnv
       simp [Expect.row, baseRow, hfam, endpoint, hnv.1, hnv.2]
+
+/-- **C11_noipv6_scan.** (round 3) The two extensions combined — an IPv6-less Python AND descriptors / processes that
+    cannot be inspected: the system-wide call does not fail and returns the rows promised for `w.view.dropV6`. (The
+    driver treats this combination as specified for the system-wide form; the per-process form of the combination is
+    left `unspecified`: implementation vs model only.) -/
+theorem C11_noipv6_scan (le : Bool) (w : WorldE) (hw : w.view.WF) (hi : w.Inspectable)
+    (kind : String) (hk : kind ∈ kinds) :
+    ∃ rows, netConnectionsE (cfgNoV6 le) (renderWorldE le w) kind none = .ok rows
+      ∧ Accepts (expects w.view.dropV6 ⟨kind, none⟩) rows :=
+  scan_system_noV6 (cfgLE le) (cfgLE_good le) (cfgLE_tmap_good le) w hw hi kind hk
 
 /-! ## Round 2: WHICH holder a TCP/UDP row shows (characterisation; the statement allows any) -/
 
